@@ -119,6 +119,11 @@ def discharge(ob, base_axioms, timeout_s=20, seed=0, both=False, keep_model=True
         reason = s1.reason_unknown()
         saturated = 'incomplete' in reason
         cand = None
+        if saturated and ob.concrete_fail:
+            # a structural failure on a path the executor found feasible: nothing to search for
+            info['definite'] = False
+            return Verdict(ob.name, 'refuted', 'z3', time.time() - t0, model=None, info=info,
+                           reason=ob.concrete_fail + ' (path condition not refutable)')
         if saturated and keep_model:
             try:
                 cand = model_summary(s1.model())
